@@ -1,5 +1,6 @@
 import PercevalModel.Proto
 import PercevalModel.Model.C12
+import PercevalModel.Model.C12Solve
 
 /-!
   C12 driver.  Requests (one JSON object per line):
@@ -17,7 +18,11 @@ import PercevalModel.Model.C12
     the model of `Circuit.inverse` predicts for the returned circuit.  The solver results handed to the model are
     `(B, Binv)` with `Binv` the exact inverse over ℚ[i]; `inv_holds` reports the (exact) evaluation of the
     invariant `circMat comps · u + err = U` of `triangle_reconstruct_with_error` on the result.
-  Numbers in replies are rounded down to multiples of 2⁻¹⁰⁰ (the harness compares with 1e-9).
+  * `{"op":"solve","a":[q…],"b":q,"x0":[q…],"cs":[q|null,…],"prec":q,"allow":b,"opt":[q…]}` →
+    `{"res":[q…]}` or `{"none":true}`: the model of `solve.py: solve` (`Model/C12Solve.lean`) on the function
+    `f(x) = |b + Σ aᵢ·xᵢ|` over ℚ (exact), the numerical minimiser being the oracle that returns `opt` (the point the
+    real minimiser was observed to return; it is not consulted when every parameter is imposed).  Exact replies.
+  Numbers in replies of `prod`/`fold` are rounded down to multiples of 2⁻¹⁰⁰ (the harness compares with 1e-9).
 -/
 
 open Lean PM PM.Proto PM.C12
@@ -166,11 +171,30 @@ def handleProd (j : Json) : Except String Json := do
   if ls.any fun l => l.1 + l.2.1 > m then throw "leaf outside the circuit"
   return Json.mkObj [("M", rowsOfV (prodLeavesV m ls))]
 
+def ratListOf (j : Json) (k : String) : Except String (List ℚ) := do
+  (← arrOf j k).toList.mapM ratOfJson
+
+def handleSolve (j : Json) : Except String Json := do
+  let a ← ratListOf j "a"
+  let b ← ratOfJson (← j.getObjVal? "b")
+  let x0 ← ratListOf j "x0"
+  let cs ← (← arrOf j "cs").toList.mapM fun (c : Json) =>
+    if c.isNull then pure (none : Option ℚ) else (ratOfJson c).map some
+  let prec ← ratOfJson (← j.getObjVal? "prec")
+  let allow ← boolOf j "allow"
+  let opt ← ratListOf j "opt"
+  if a.length ≠ cs.length ∨ x0.length ≠ cs.length then throw "a, x0 and cs must have the same length"
+  let f : List ℚ → ℚ := fun x => |b + ((a.zip x).map fun p => p.1 * p.2).sum|
+  match Solve.solve (fun _ _ => opt) allow prec f x0 cs with
+  | none => return Json.mkObj [("none", toJson true)]
+  | some x => return Json.mkObj [("res", Json.arr (x.map ratToJson).toArray)]
+
 def handle (j : Json) : Json :=
   let r : Except String Json := do
     let op ← strOf j "op"
     if op == "prod" then handleProd j
     else if op == "fold" then handleFold j
+    else if op == "solve" then handleSolve j
     else throw "unknown op"
   match r with
   | .ok x => x
